@@ -13,6 +13,7 @@ import (
 	"fmt"
 	"os"
 	"regexp"
+	"strconv"
 	"strings"
 	"sync"
 	"testing"
@@ -170,7 +171,16 @@ func genCase(t *rapid.T, opt *wgen.Options, nhist int) (c Case, p *winterp.Progr
 			}
 			ev.Note("unmutated draw rejected: " + rejectShape(msg))
 			if os.Getenv("VERIF_E2_DEBUG") != "" {
-				fmt.Fprintf(os.Stderr, "REJECT %v\n", err)
+				line := ""
+				if m := regexp.MustCompile(`wuffs:([0-9]+)`).FindStringSubmatch(err.Error()); m != nil {
+					n, _ := strconv.Atoi(m[1])
+					if ls := strings.Split(c.Src, "\n"); n >= 1 && n <= len(ls) {
+						for k := max(0, n-3); k < n; k++ {
+							line += strings.TrimSpace(ls[k]) + " ## "
+						}
+					}
+				}
+				fmt.Fprintf(os.Stderr, "REJECT %.120v | %s\n", err, line)
 			}
 		}
 		ev.Class(cls)
@@ -182,7 +192,8 @@ func genCase(t *rapid.T, opt *wgen.Options, nhist int) (c Case, p *winterp.Progr
 		ev.Class("accepted-program")
 	}
 	for _, sh := range [][2]string{{"iterate (", "iterate"}, {"} else (length:", "iterate-else"}, {"io_bind (", "io_bind"}, {"foo.drain?", "two-public-coroutines"},
-		{"inv ", "loop-invariant"}, {"_fast!(", "fast-io"}, {"w: base.u32", "coroutine-with-argument"}, {"pub func foo.set_f", "refined-setter"}} {
+		{"inv ", "loop-invariant"}, {"_fast!(", "fast-io"}, {"w: base.u32", "coroutine-with-argument"}, {"pub func foo.set_f", "refined-setter"},
+		{"while.lab", "labelled-loop-deep-break"}, {"}}.lab", "double-curly-block"}, {"pri const K", "named-scalar-const"}, {"<< (", "variable-shift"}} {
 		if strings.Contains(c.Src, sh[0]) {
 			ev.Class("shape:" + sh[1])
 		}
